@@ -89,6 +89,15 @@ static void exportCase(uint64_t idx, Rng &rng, CaseResult &r) {
   if (r.needSample()) r.sample = vf::J::obj().kv("what", "exportIspd -> coloquinte.py read_ispd round trip").kraw("circuit", circuitJson(c)).str();
   if (r.dumpOnly) return;
   std::string base = scratchDir() + "/p" + std::to_string((long)getpid()) + "_c" + std::to_string((unsigned long long)idx);
+  if (rng.chance(0.1)) {
+    // the directory has a past: an earlier revision of the design was exported under the same name and compressed in place (as
+    // benchmarks are usually stored). The fresh export must be what is read back.
+    Circuit old = c;
+    for (int i = 0; i < old.nbCells(); ++i) { old.cellX_[i] += 7; old.cellY_[i] -= 3; if (!old.cellIsFixed_[i]) old.cellWidth_[i] += 1; }
+    old.exportIspd(base);
+    std::string cmd = "for e in nodes nets pl scl wts; do [ -f '" + base + ".'$e ] && gzip -f '" + base + ".'$e; done 2>/dev/null";
+    if (system(cmd.c_str()) == -1) r.count("gzip_unavailable"); else r.count("exports_next_to_stale_compressed_files");
+  }
   c.exportIspd(base);
   {
     std::ofstream f(base + ".truth.json");
